@@ -43,6 +43,7 @@ func (e *c06E2E) regMsg(secret []byte, covert string, src pb.RegistrationSource,
 			V6Support:           &v6,
 			DecoyListGeneration: &gen,
 			ClientLibVersion:    &libv,
+			Flags:               e.msgFlags(),
 		},
 		RegistrationSource:  &src,
 		RegistrationAddress: net.ParseIP("203.0.113.77").To16(),
@@ -87,7 +88,7 @@ type c06Delivery struct {
 func (e *c06E2E) runHistory(kind string, ageMin int, mode string, src pb.RegistrationSource, dual bool, secret []byte) {
 	e.seq++
 	pol, rm := e.pols[mode], e.rms[mode]
-	label := fmt.Sprintf("history:%s backdate=%dmin policy=%s source=%s dual=%v", kind, ageMin, mode, src, dual)
+	label := fmt.Sprintf("history:%s backdate=%dmin policy=%s source=%s dual=%v flags=%s", kind, ageMin, mode, src, dual, e.flagsName)
 	e.rec.Case(label)
 	e.logbuf.Take()
 
@@ -332,6 +333,7 @@ func (e *c06E2E) runHistory(kind string, ageMin int, mode string, src pb.Registr
 	}
 	e.rec.Count("evaluations", 1)
 	e.rec.Count("history_evaluations", 1)
-	e.rec.Distinct("nontrivial", "history", kind, ageMin, mode, src.String(), dual)
+	e.rec.Distinct("nontrivial", "history", kind, ageMin, mode, src.String(), dual, e.flagsName)
+	e.rec.Count("flags["+e.flagsName+"].cases", 1)
 	e.rec.Distinct("history_kinds", kind, ageMin, mode)
 }
